@@ -2,5 +2,6 @@ SPECIFICATION Spec
 CONSTANTS
   P = 2
   Max = 4
+  DrainMax = 64
 INVARIANT Inv
 INVARIANT Emit
